@@ -103,7 +103,7 @@ pub fn run_prop(ctx: &Ctx) -> PropReport {
     let tier = ctx.tier;
     rep.part(|| run_random(ctx, "spectators",
         "C01 topologies with 1-2 spectators on one or two hosts, spectator tick rates 0.25-1x, spectator pauses up to 3.5 s, max_frames_behind 1..=59, catchup_speed 1..=70, loss/dup/reorder on every link, in a quarter of the two-peer cases the non-host peer dies; oracle: n-th spectator AdvanceFrame == host's final timeline for frame n (values, Disconnected exactly where the host has it), contiguous from 0, never beyond host.confirmed_frame(), per-call step <= 1 unless more than max_frames_behind are buffered and then <= min(catchup_speed, buffered), errors never move current_frame(); metamorphic twin without spectators gives identical confirmed player inputs; non-trivial = spectator fell more than max_frames_behind behind AND its 60-slot ring wrapped",
-        || gen(tier), ctx.tier.pick(1500, 6000), eval));
+        || gen(tier), ctx.tier.pick(5000, 20000), eval));
     rep.floors.push(("spectators".into(), 0.2));
     rep.assumptions = vec!["spectator sessions are built with the same num_players and (mostly) the same prediction window as their host".into()];
     rep
